@@ -304,6 +304,9 @@ def r_request_framing(r, prog, repo):
     else:
         r.finding('request-operation-name', f.span, 'the request starts with %s (schema operation: %s)' % (shape[:1], want_name))
     # which vector is which: the one pushed under is_source == true is the first sequence
+    host, via = decisions.request_partition_host(prog)
+    if host is not f:
+        return _request_partition_through_helper(r, prog, f, host, via, tr)
     pushes = [(vexpr(f, c.args[0]), vexpr(f, c.args[1]), guards.guard_set(prog, f, c.bb), c) for c in f.calls() if c.name() == 'push' and not f.blocks[c.bb].get('cleanup')]
     src = [p for p in pushes if any(re.search(r'is_source', g) and not g.startswith('!') and not re.search(r'== 0$', g) for g in p[2])]
     ref = [p for p in pushes if any((re.search(r'is_source', g) and (g.startswith('!') or re.search(r'== 0$', g))) for g in p[2])]
@@ -320,6 +323,39 @@ def r_request_framing(r, prog, repo):
     else:
         r.finding('request-partition', f.span, 'files are distributed as %s' % [(p[0], p[1], p[2]) for p in pushes])
     # spawn_plugin_process: shared payload, then the arguments, nothing else
+    sp = prog.fn('slicec_bin::spawn_plugin_process')
+    ws = [c for c in sp.calls() if c.name() == 'write_all' and not sp.blocks[c.bb].get('cleanup')]
+    enc = [c for c in sp.calls() if c.name() == 'encode' and not sp.blocks[c.bb].get('cleanup')]
+    if len(ws) == 2 and len(enc) == 1 and sp.dominates(ws[0].bb, enc[0].bb) and sp.dominates(enc[0].bb, ws[1].bb) and vexpr(sp, ws[0].args[1]) == 'arg2' \
+            and re.match(r'^Arguments::Arguments\{0:clone\(arg1\.args\)\}$', vexpr(sp, enc[0].args[1])):
+        r.ok('a generator receives the shared payload and then its own arguments, nothing else')
+    else:
+        r.finding('generator-input', sp.span, 'spawn_plugin_process writes %s and encodes %s' % ([vexpr(sp, c.args[1])[:60] for c in ws], [vexpr(sp, c.args[1])[:60] for c in enc]))
+    r.floor(3)
+
+
+def _request_partition_through_helper(r, prog, f, h, via, tr):
+    """the same decision when the conversion and distribution sit in a helper that hands back (sources, references): the pushes are judged in
+    the helper, the order of the two sequences by which component of its result is encoded first"""
+    pushes = [(vexpr(h, c.args[0]), vexpr(h, c.args[1]), guards.guard_set(prog, h, c.bb), c) for c in h.calls() if c.name() == 'push' and not h.blocks[c.bb].get('cleanup')]
+    src = [p for p in pushes if any(re.search(r'is_source', g) and not g.startswith('!') and not re.search(r'== 0$', g) for g in p[2])]
+    ref = [p for p in pushes if any((re.search(r'is_source', g) and (g.startswith('!') or re.search(r'== 0$', g))) for g in p[2])]
+    rets = [d[3] for d in h.defs_of(0) if d[0] == 'assign' and d[3]['k'] == 'agg' and d[3].get('ak') == 'tuple' and not h.blocks[d[1]].get('cleanup')]
+    ok = False
+    if len(pushes) == 2 and len(src) == 1 and len(ref) == 1 and src[0][1] == ref[0][1] and re.match(r'^from\(next\(into_iter\(arg1\)\) as Some\.0\)$', src[0][1]) \
+            and len(rets) == 1 and len(rets[0]['ops']) == 2 and vexpr(f, via.args[0]) == 'arg1':
+        sl, rl = base_local_of(h, src[0][3].args[0]), base_local_of(h, ref[0][3].args[0])
+        comp = [base_local_of(h, o) for o in rets[0]['ops']]
+        if sl in comp and rl in comp and sl != rl and len(tr) == 3:
+            si, ri = comp.index(sl), comp.index(rl)
+            e1, e2 = vexpr(f, tr[1][4].args[1]), vexpr(f, tr[2][4].args[1])
+            call = '%s(arg1)' % via.name()
+            if e1 == '%s.%d' % (call, si) and e2 == '%s.%d' % (call, ri):
+                ok = True
+    if ok:
+        r.ok('every file is converted once (in %s) and goes to the source sequence (written first) when is_source, else to the reference sequence (written second)' % h.name)
+    else:
+        r.finding('request-partition', f.span, 'files are distributed in %s as %s and the request encodes %s' % (h.name, [(p[0], p[1], p[2]) for p in pushes], [vexpr(f, t[4].args[1])[:60] for t in tr[1:]]))
     sp = prog.fn('slicec_bin::spawn_plugin_process')
     ws = [c for c in sp.calls() if c.name() == 'write_all' and not sp.blocks[c.bb].get('cleanup')]
     enc = [c for c in sp.calls() if c.name() == 'encode' and not sp.blocks[c.bb].get('cleanup')]
@@ -513,8 +549,14 @@ def r_type_ids(r, prog):
         ps = [c for c in g.calls() if c.name() == 'push' and not g.blocks[c.bb].get('cleanup') and 'converted_contents' in vexpr(g, c.args[0])]
         ls = [c for c in g.calls() if c.name() == 'len' and not g.blocks[c.bb].get('cleanup')]
         ret = vexpr(g, {'cp': {'l': 0}}, depth=6)
-        return (len(ps) == 1 and vexpr(g, ps[0].args[1]) == 'arg2' and ls and all(g.dominates(ps[0].bb, l.bb) for l in ls)
-                and re.match(r'^to_string\(Sub\(len\(arg1\.converted_contents\),1\)\)$', ret) is not None)
+        if len(ps) != 1 or vexpr(g, ps[0].args[1]) != 'arg2' or not ls:
+            return False
+        if all(g.dominates(ps[0].bb, l.bb) for l in ls) and re.match(r'^to_string\(Sub\(len\(arg1\.converted_contents\),1\)\)$', ret):
+            return True
+        # the same index taken just before the push (nothing else happens in between: the helper only measures, pushes and formats)
+        others = [c.name() for c in g.calls() if not g.blocks[c.bb].get('cleanup') and c.name() not in ('len', 'push', 'to_string', 'deref')]
+        return (len(ls) == 1 and g.dominates(ls[0].bb, ps[0].bb) and not others
+                and re.match(r'^to_string\(len\(arg1\.converted_contents\)\)$', ret) is not None)
     helpers = {g.name for g in prog.fns.values() if g.path.startswith(C) and g is not f and '{closure' not in g.path and push_and_id(g)}
     pushes = [c for c in f.calls() if c.name() == 'push' and not f.blocks[c.bb].get('cleanup')]
     hcalls = [c for c in f.calls() if c.name() in helpers and not f.blocks[c.bb].get('cleanup')]
